@@ -163,6 +163,10 @@ func (p *parser) nextCtl(offset int) ([]byte, int, bool) {
 		i = len(p.body) - offset
 	}
 	ctl := p.body[offset : offset+i]
+	if ctl[0] == '#' || bytes.HasPrefix(ctl, comment) {
+		// A comment takes the whole line, whatever it contains.
+		return ctl, offset, false
+	}
 	if j := bytes.IndexByte(ctl, '{'); j > 0 && ctl[j-1] != '.' {
 		return p.body[offset : offset+j+1], offset, false
 	}
